@@ -1,28 +1,16 @@
-"""Per-property configuration of vcheck."""
-KERNEL = "Coq 8.16.1 kernel incl. its vm_compute machine (no native_compute)"
-HARNESS_TB = "Rust harness fvh (case generation, catch_unwind, canonicalisation, Gallina pretty-printer) and bin/vcheck"
-
+"""Per-property configuration of vcheck: one module per property under bin/propdefs/ (PROP dict)."""
+import importlib, os, glob
+HERE = os.path.dirname(os.path.abspath(__file__))
 PROPS = {}
+for f in sorted(glob.glob(os.path.join(HERE, "propdefs", "C[0-9][0-9].py"))):
+    pid = os.path.basename(f)[:-3]
+    try:
+        PROPS[pid] = importlib.import_module("propdefs." + pid).PROP
+    except Exception as e:  # a broken definition must not take the other properties down
+        import sys
+        print("warning: propdefs/%s.py failed to load: %s" % (pid, e), file=sys.stderr)
 
-PROPS["C04"] = {
-    "bin": "c04",
-    "coq_targets": ["theories/IL/C04Check"],
-    "n": {"quick": 6000, "thorough": 120000},
-    "theorems": [],
-    "rule": "cases drawn from one xoshiro256** stream per (seed,index): 45% Constant operators at boundary-biased widths/values, "
-            "10% extensions/truncations, 35% expression trees built through the public constructors then eval'd, 10% replace_scalar; "
-            "non-trivial = boundary operand (sign bit set, zero divisor, shift) or tree of >= 3 nodes; distinct by canonical case text",
-    "trusted_base": [KERNEL, HARNESS_TB, "num-bigint (BigUint/BigInt operators taken to be the mathematical ones on Z)"],
-    "assumptions": ["num-bigint arithmetic is exact", "widths range over 1 <= w < 2^64 (usize)"],
-    "partial": [],
-}
-
+# hook commits in /repo (guard: --cfg falconre_falcon_verif)
 HOOK_COMMITS = []
+# properties not claimed, with the reason (kept current by hand)
 NOT_APPLICABLE = {}
-
-PROPS["C04"].update({
-    "level_text": "Unbounded Coq theorems (all widths >= 1, all operand values) that the Gallina transcription of Constant/Expression/eval equals "
-                  "two's-complement bit-vector arithmetic, plus an in-kernel differential tie of that transcription to the Rust code on generated cases "
-                  "(model = observed, and observed = specification).",
-    "level_note": "Trusted: Coq kernel + vm_compute; num-bigint; the harness/pretty-printer; the model is hand-written and tied to the code differentially, not by translation.",
-})
